@@ -74,6 +74,7 @@ MUTANTS = [
     ("c20-id-of-first-discovered-handler", "internal/pkg/input/device.go", "\t\tsort.SliceStable(dis, func(i, j int) bool {", "\t\tsort.SliceStable(append([]DeviceInfo{}, dis...), func(i, j int) bool {", ["C20"]),
     ("c13-panic-swallowed-by-held-pair", EVS, "\t\t\tif action == config.Panic || !d.checkDoubleActions() {", "\t\t\tif !d.checkDoubleActions() {", ["C13"]),
     ("c19-watcher-errors-not-read", "internal/pkg/midi/device/config/monitor.go", "\t\t\tfor err := range watcher.Errors {", "\t\t\tfor err := range make(chan error) {", ["C19"]),
+    ("c18-changed-factory-file-rewritten-in-place", "cmd/hidi/config.go", "\t\tif err := os.Remove(path); err != nil {", "\t\tif err := error(nil); err != nil {", ["C18"]),
     ("c08-tracker-by-code-only", EVS, "identifier := fmt.Sprintf(\"%s/%d\", ie.Source.Name, ie.Event.Code)", "identifier := fmt.Sprintf(\"%d\", ie.Event.Code)", ["C08"]),
     ("c08-thresholds-swapped", EVS, "\t\tcase value > -0.49 && value < 0.49:\n\t\t\td.AnalogNoteOff(identifier, ie)", "\t\tcase value > -0.3 && value < 0.3:\n\t\t\td.AnalogNoteOff(identifier, ie)", ["C08"]),
     ("c08-noteoff-current-transposition", DEV, "\tnote, channel := noteAndChannel[0], noteAndChannel[1]\n\n\tevent := midi.NoteEvent(midi.NoteOff, channel, note, 0)",
